@@ -32,12 +32,13 @@ type COptic struct {
 
 // CPair is handed over by the generated code for one pair of structures (property C04).
 type CPair struct {
-	ID      int
-	Build   func() // derives the isos (may panic)
-	S, T    CSide
-	MapSet  func(key string, k int) // k < 0: delete the key
-	MapSnap func(key string) int    // -1: absent
-	Optics  map[int]func() *COptic  // constructors (may panic), by 1-based index into TLC's optic table
+	ID       int
+	Build    func()     // derives the isos (may panic)
+	Building func() int // the (1-based) entry of TLC's iso table Build was working on
+	S, T     CSide
+	MapSet   func(key string, k int) // k < 0: delete the key
+	MapSnap  func(key string) int    // -1: absent
+	Optics   map[int]func() *COptic  // constructors (may panic), by 1-based index into TLC's optic table
 	// Morph builds optics.Morphism over TLC's iso table (0 = nil entry); direct = use the bare Iso (one-element lists)
 	Morph  func(ix []int, direct bool) (fwd, inv func())
 	MorphM func(ix []int, direct bool) (fwd, inv func())
@@ -90,8 +91,10 @@ type cCase struct {
 	LensT []cLens  `json:"lensT"`
 	Optic []cOptic `json:"optics"`
 	Isos  []struct {
-		SI int `json:"si"`
-		TI int `json:"ti"`
+		Kind   string  `json:"kind"` // "iso" (over plain or wrapped lenses) | "morph" (a Morphism used as an entry)
+		SI     int     `json:"si"`
+		TI     int     `json:"ti"`
+		Leaves []cLeaf `json:"leaves"` // the isos the entry applies, in order, nested Morphisms flattened
 	} `json:"isos"`
 	IsosM []struct {
 		SI  int    `json:"si"`
@@ -105,6 +108,42 @@ type cCase struct {
 		M map[string]int `json:"M"`
 	} `json:"init"`
 	Scripts [][]cStep `json:"scripts"`
+}
+
+// cWrap says through which optic one side of an iso goes: the plain field lens, or BiMap / Getter / Setter with a conversion.
+type cWrap struct {
+	Kind string `json:"kind"`
+	Conv string `json:"conv"`
+	NV   int    `json:"nv"`
+}
+
+type cLeaf struct {
+	S   int    `json:"s"` // source cell (1-based)
+	T   int    `json:"t"` // target cell (1-based)
+	SW  cWrap  `json:"sw"`
+	TW  cWrap  `json:"tw"`
+	key string // target map key (struct <-> map isos)
+}
+
+// shows: what Get through the optic returns for a cell holding value x; stores: what a Put of the shown value y leaves
+// in the cell (ok = false: the optic never writes) - the wrappers of TLC's table (OpticsCompose!UGet / UPut).
+func (w cWrap) shows(x int) int {
+	switch w.Kind {
+	case "bimap", "getter":
+		return fwdConv(w.Conv, x, w.NV)
+	case "setter":
+		return 0
+	}
+	return x
+}
+func (w cWrap) stores(y int) (int, bool) {
+	switch w.Kind {
+	case "bimap", "setter":
+		return invConv(w.Conv, y, w.NV), true
+	case "getter":
+		return 0, false
+	}
+	return y, true
 }
 
 var mapKeys = []string{"k1", "k2", "k3"}
@@ -326,7 +365,11 @@ func (o *crun) run() {
 		o.optic(oi, d, q)
 	}
 	if pn, msg := try(p.Build); pn {
-		o.r.pviol("compose-derivation-panics", p.ID, rec{"detail": "deriving the lenses of the isos panicked: " + msg})
+		kind, at := "compose-derivation-panics", p.Building()
+		if at >= 1 && at <= len(c.Isos) && c.Isos[at-1].Kind == "morph" {
+			kind = "morphism-panics" // optics.Morphism over isos and nils, to be used as an entry of another Morphism
+		}
+		o.r.pviol(kind, p.ID, rec{"entry": at, "detail": fmt.Sprintf("building entry %d of the iso table panicked: %s", at, msg)})
 		return
 	}
 	o.morphisms(false)
@@ -459,32 +502,57 @@ func (o *crun) morphisms(isMap bool) {
 	if o.thorough {
 		limit = 200
 	}
-	order := o.rnd.Perm(len(lists))
-	if len(order) > limit {
-		order = order[:limit]
+	// which lists: half of the budget for lists with an iso over wrapped lenses or a nested Morphism, the rest at random
+	special := func(q []int) (wrapped, nested bool) {
+		if isMap {
+			return
+		}
+		for _, j := range q {
+			if j == 0 {
+				continue
+			}
+			e := c.Isos[j-1]
+			nested = nested || e.Kind == "morph"
+			for _, l := range e.Leaves {
+				wrapped = wrapped || l.SW.Kind != "lens" || l.TW.Kind != "lens"
+			}
+		}
+		return
+	}
+	var order []int
+	picked := map[int]bool{}
+	for _, li := range o.rnd.Perm(len(lists)) {
+		if w, n := special(lists[li]); (w || n) && len(order) < limit/2 {
+			order = append(order, li)
+			picked[li] = true
+		}
+	}
+	for _, li := range o.rnd.Perm(len(lists)) {
+		if !picked[li] && len(order) < limit {
+			order = append(order, li)
+		}
 	}
 	sort.Ints(order)
 	for _, li := range order {
 		q := lists[li]
-		type pairing struct {
-			s, t int
-			key  string
-		}
-		var live []pairing
+		var live []cLeaf // 0-based cells from here on
 		for _, j := range q {
 			if j == 0 {
 				continue
 			}
 			if isMap {
-				live = append(live, pairing{s: c.LensS[c.IsosM[j-1].SI-1].Cell - 1, key: c.IsosM[j-1].Key})
+				live = append(live, cLeaf{S: c.LensS[c.IsosM[j-1].SI-1].Cell - 1, key: c.IsosM[j-1].Key, SW: cWrap{Kind: "lens"}, TW: cWrap{Kind: "lens"}})
 			} else {
-				live = append(live, pairing{s: c.LensS[c.Isos[j-1].SI-1].Cell - 1, t: c.LensT[c.Isos[j-1].TI-1].Cell - 1})
+				for _, l := range c.Isos[j-1].Leaves {
+					l.S, l.T = l.S-1, l.T-1
+					live = append(live, l)
+				}
 			}
 		}
 		direct := len(q) == 1 && q[0] != 0 && (p.ID+li)%2 == 0
 		var fwd, inv func()
 		if pn, msg := try(func() { fwd, inv = build(q, direct) }); pn {
-			o.r.pviol("compose-derivation-panics", p.ID, rec{"list": q, "map": isMap, "detail": msg})
+			o.r.pviol("morphism-panics", p.ID, rec{"list": q, "map": isMap, "detail": "optics.Morphism(...) panicked: " + msg})
 			return
 		}
 		info := func(sst, tst any, detail string) rec {
@@ -523,7 +591,7 @@ func (o *crun) morphisms(isMap bool) {
 						want[k] = v
 					}
 					for _, l := range live {
-						want[l.key] = sst[l.s]
+						want[l.key] = sst[l.S]
 					}
 					if got := o.snapMap(); !same(got, want) {
 						o.r.pviol("morphism-forward", p.ID, info(sst, tst, fmt.Sprintf("map after Forward %v, want %v (only the keys of the isos may change)", got, want)))
@@ -532,9 +600,11 @@ func (o *crun) morphisms(isMap bool) {
 				} else {
 					want := append([]int{}, tst.([]int)...)
 					touched := map[int]bool{}
-					for _, l := range live {
-						want[l.t] = sst[l.s]
-						touched[l.t] = true
+					for _, l := range live { // in list order: what the source optic shows goes through the target optic
+						if v, writes := l.TW.stores(l.SW.shows(sst[l.S])); writes {
+							want[l.T] = v
+						}
+						touched[l.T] = true
 					}
 					if got := snapAll(&p.T); !same(got, want) {
 						o.r.pviol("morphism-forward", p.ID, info(sst, tst, fmt.Sprintf("fields of T after Forward %v, want %v", got, want)))
@@ -578,27 +648,31 @@ func (o *crun) morphisms(isMap bool) {
 				touched := map[int]bool{}
 				source := map[int]map[string]bool{} // source cell -> the different targets mapped onto it
 				for _, l := range live {
-					touched[l.s] = true
-					if source[l.s] == nil {
-						source[l.s] = map[string]bool{}
+					touched[l.S] = true
+					if source[l.S] == nil {
+						source[l.S] = map[string]bool{}
 					}
-					source[l.s][fmt.Sprint(l.t, l.key)] = true
+					source[l.S][fmt.Sprint(l.T, l.key, l.SW, l.TW)] = true
 				}
-				// a source focus with one target takes that target's value (the zero value for an absent map key)
+				// a source focus with one iso takes what the target optic shows (the zero value for an absent map key)
 				for _, l := range live {
-					if len(source[l.s]) != 1 {
+					if len(source[l.S]) != 1 {
 						continue
 					}
-					want := 0
+					shown := 0
 					if isMap {
 						if v := tst.(map[string]int)[l.key]; v >= 0 {
-							want = v
+							shown = v
 						}
 					} else {
-						want = tst.([]int)[l.t]
+						shown = l.TW.shows(tst.([]int)[l.T])
 					}
-					if got[l.s] != want {
-						o.r.pviol("morphism-inverse", p.ID, info(sst2, tst, fmt.Sprintf("after Inverse field %v of S holds value %d, the target focus holds %d", c.S.Cells[l.s].Path, got[l.s], want)))
+					want, writes := l.SW.stores(shown)
+					if !writes {
+						want = sst2[l.S]
+					}
+					if got[l.S] != want {
+						o.r.pviol("morphism-inverse", p.ID, info(sst2, tst, fmt.Sprintf("after Inverse field %v of S holds value %d, want %d", c.S.Cells[l.S].Path, got[l.S], want)))
 						return
 					}
 				}
@@ -615,6 +689,14 @@ func (o *crun) morphisms(isMap bool) {
 			}
 		}
 		o.r.stats["morphism-lists"]++
+		if w, n := special(q); w || n {
+			if w {
+				o.r.stats["morphism-lists-wrapped"]++
+			}
+			if n {
+				o.r.stats["morphism-lists-nested"]++
+			}
+		}
 	}
 	sideRestore(&p.S, o.cleanS)
 	sideRestore(&p.T, o.cleanT)
